@@ -177,7 +177,7 @@ if __name__ == "__main__":
         "mocknet streams ignore deadlines and have no scopes: the relay's streams are wrapped by the harness (deadline-honouring Read, real rcmgr stream scope opened/closed like the swarm does, WithNoDial honoured); yamux/QUIC stream deadlines themselves are not exercised",
         "a half-closed circuit whose remaining direction flows TOWARDS an endpoint that reset/disconnected is kept by the code until the next write or the deadline (the relay only notices on the side it reads from); the model tears it down at once and the generator never produces that state (safeToDrop)",
         "cryptography (record.Seal / ConsumeEnvelope) enters through the correspondence only: every granted voucher is verified with the real code against the relay's key; the model states the fields",
-        "hypotheses forced by the proofs: c11_caps_respected_partial needs every RESERVE of a peer to come from one address (otherwise refuted: known finding); c11_gone_on_disconnect_partial needs no RESERVE racing with the peer's disconnect (otherwise refuted: known finding); 0 <= ttl and 0 <= caps",
+        "hypotheses of the theorems: 0 <= ReservationTTL and 0 <= caps only (the one-address and no-race hypotheses of the first round are gone with the fixes 648cd92 and 6afff63 in /repo; their former counterexamples are corpus cases: directed histories (a),(b),(d) of the harness and corpus_*_fixed in Properties.v)",
     ]
     standard_flow(ctx, dict(
         consts=consts,
